@@ -41,8 +41,9 @@ ASSUMPTIONS = [
 ]
 BOUNDS = {
     "quick": {"alias": "put_template of a file-backed Template under another URI: all histories of <= 4 events over {tick, write, get alias, get own uri, has alias} x filesystem_checks x collection_size {-1,4} x module directory x {Template(filename=), lookup.get_template}",
-              "max_depth": "S: 11 (1 dir) / 7 (2 dirs); L: 9 (2 uris) / 7 (3 uris)", "versions": "A,B,broken", "time_budget_s": 90},
-    "thorough": {"alias": "as quick with histories of <= 5 events", "max_depth": "S: 40 (fixpoint sought)/9/6 for 1/2/3 dirs; L: 12/8/6/5/4 for 2/3/4/5/7 uris; groups explored one after the other", "versions": "A,B,broken,unreadable", "time_budget_s": 780},
+              "max_depth": "S: 11 (1 dir) / 7 (2 dirs); L: 9 (2 uris) / 7 (3 uris)", "versions": "A,B,broken", "time_budget_s": 90,
+              "fractional_times": "2 configurations (module directory on/off) whose clock reads x.25 and whose files may also be saved at x.75 (event write_frac), depth 7"},
+    "thorough": {"alias": "as quick with histories of <= 5 events", "max_depth": "S: 40 (fixpoint sought)/9/6 for 1/2/3 dirs; L: 12/8/6/5/4 for 2/3/4/5/7 uris; groups explored one after the other", "versions": "A,B,broken,unreadable", "time_budget_s": 780, "fractional_times": "4 configurations (collection_size -1/1 x module directory), depth 12"},
 }
 READY = True
 
@@ -88,6 +89,9 @@ def configs(tier):
     # the caller's spelling of the URI: doubled leading slash, backslash (served under the URI as given)
     for spell, cs, md in ([("//", -1, False), ("\\", 1, False)] if tier == "quick" else [(sp_, cs, md) for sp_ in ("/", "//", "\\", "/\\") for cs in (-1, 1) for md in (False, True)]):
         out.append({"mode": "S", "dirs": 1, "uris": 1, "fs_checks": True, "size": cs, "moddir": md, "unreadable": False, "max_depth": 7 if tier == "quick" else 12, "spell": spell})
+    # file times with a fractional part: the clock reads x.25, a file may be saved at x.75
+    for cs, md in ([(-1, True), (-1, False)] if tier == "quick" else [(cs, md) for cs in (-1, 1) for md in (False, True)]):
+        out.append({"mode": "S", "dirs": 1, "uris": 1, "fs_checks": True, "size": cs, "moddir": md, "unreadable": False, "max_depth": 7 if tier == "quick" else 12, "frac": True})
     for nu, fs, cs, md in L:
         dep = ({2: 9, 3: 7} if tier == "quick" else {2: 12, 3: 8, 4: 6, 5: 5, 7: 4})[nu]
         out.append({"mode": "L", "dirs": 1, "uris": nu, "fs_checks": fs, "size": cs, "moddir": md, "unreadable": False, "max_depth": dep})
@@ -109,7 +113,7 @@ def groups(tier):
 
 
 def cfg_label(c):
-    return "%s dirs=%d uris=%d checks=%s size=%d moddir=%s%s" % (c["mode"], c["dirs"], c["uris"], c["fs_checks"], c["size"], c["moddir"], " spell=%r" % c["spell"] if c.get("spell") else "")
+    return "%s dirs=%d uris=%d checks=%s size=%d moddir=%s%s" % (c["mode"], c["dirs"], c["uris"], c["fs_checks"], c["size"], c["moddir"], (" spell=%r" % c["spell"] if c.get("spell") else "") + (" frac" if c.get("frac") else ""))
 
 
 URIS = ["u", "v", "w", "x", "y", "z", "q", "r"]
@@ -132,6 +136,10 @@ def events(cfg):
                 ev.append(("write", d, u, v))
             for v in ("A", "B"):
                 ev.append(("write_old", d, u, v))
+            if cfg.get("frac"):
+                # saved half a second after the clock reading (mtimes carry a fractional part; the clock's steps stay whole)
+                for v in ("A", "B"):
+                    ev.append(("write_frac", d, u, v))
             ev.append(("delete", d, u))
             if cfg.get("unreadable"):
                 ev.append(("unreadable", d, u))
@@ -197,7 +205,7 @@ class World:
         self.root = _proc_root()
         self.dirs = [os.path.join(self.root, "d%d" % d) for d in range(cfg["dirs"])]
         self.moddir = os.path.join(self.root, "mods") if cfg["moddir"] else None
-        self.clock = seams.SimClock(1000.0)
+        self.clock = seams.SimClock(1000.25 if cfg.get("frac") else 1000.0)
         self.timer = seams.LogicalTimer()
         self.seams = seams.Seams()
         import mako.cache, mako.runtime  # noqa: loaded before the clocks are taken over
@@ -285,9 +293,9 @@ class World:
         failed_uri = None
         if kind == "tick":
             self.clock.now += 1.0
-        elif kind in ("write", "write_old"):
+        elif kind in ("write", "write_old", "write_frac"):
             _, d, u, v = ev
-            mt = self.clock.now if kind == "write" else self.clock.now - 2
+            mt = self.clock.now if kind == "write" else self.clock.now + 0.5 if kind == "write_frac" else self.clock.now - 2
             with open(self.path(d, u), "w") as f:
                 f.write(content(d, u, v))
             os.utime(self.path(d, u), (mt, mt))
